@@ -61,6 +61,38 @@ theorem email_token_lives_access_ttl :
     Token.emailJwtTokenExpireTS < srcCfg.ttlEmail := by
   decide
 
+/-! ## the configuration after `InitConfig()` (api/config.go), kernel-checked on the regenerated lines and on
+the ini files shipped with the repository -/
+
+/-- every line `X = setYConfig("KEY", DEFAULT)` of config() reads the key named like the variable it assigns and
+falls back to THAT variable: without an ini entry a variable keeps its 00-config.go value (in particular no
+secret falls back to another secret) -/
+theorem config_keys_and_defaults_are_own_variables :
+    Token.configLines.all (fun l => l.2.2.1 == l.1 && l.2.2.2.2 == l.1) = true := by decide
+
+/-- config() assigns each of the three secrets exactly once -/
+theorem config_assigns_each_secret_once :
+    ["JWT_SECRET", "REFRESH_JWT_SECRET", "EMAIL_JWT_SECRET"].all
+      (fun v => (Token.configLines.filter (fun l => l.1 == v)).length == 1) = true := by decide
+
+/-- with no `[go-pttbbs:api]` entry at all, `InitConfig()` leaves the configuration of the source -/
+theorem effective_config_without_ini_is_source_config : effCfg [] = some srcCfg := by decide
+
+/-- the ini files the theorems below range over: none, and every ini file shipped with the repository -/
+def shippedInis : List Env := [] :: Token.iniFiles.map (·.2)
+
+/-- **the effective secrets after `InitConfig()` are pairwise distinct**, with no ini entry and with every
+shipped ini file (none of which sets REFRESH_JWT_SECRET) -/
+theorem effective_secrets_pairwise_distinct :
+    shippedInis.all (fun ini => (effSecrets ini).map pairwiseDistinct == some true) = true := by decide
+
+/-- what separates the kinds at the login check, as a test on a configuration -/
+def kindsSeparated (c : Cfg) : Bool :=
+  c.sRefresh != c.vAccess && c.sEmail != c.vAccess && c.sAccess == c.vAccess && c.sRefresh == c.vRefresh && c.sEmail == c.vEmail
+
+theorem effective_configs_separate_kinds :
+    shippedInis.all (fun ini => (effCfg ini).map kindsSeparated == some true) = true := by decide
+
 /-! ## the library law that is mirrored -/
 
 /-- a `[]byte` key verifies HMAC algorithms only: `none` and the asymmetric methods never verify -/
@@ -295,6 +327,19 @@ theorem access_rejects_other_kinds (t t0 : Int) (user cli eml ctx : Bytes) (σ :
     (SignedOnly srcCfg.sEmail σ → authAs srcCfg t n (.tok (createEmailToken srcCfg t0 user cli eml ctx σ)) = srcCfg.guest) :=
   ⟨fun h => access_rejects_refresh_token srcCfg t t0 user cli σ (by decide) h n,
    fun h => access_rejects_email_token srcCfg t t0 user cli eml ctx σ (by decide) h n⟩
+
+/-- the same after `InitConfig()` with no ini entry or any shipped ini file: whatever configuration `c` results,
+refresh and e-mail tokens issued under it are guests at the login check -/
+theorem access_rejects_other_kinds_effective (ini : Env) (hini : ini ∈ shippedInis) (c : Cfg) (hc : effCfg ini = some c)
+    (t t0 : Int) (user cli eml ctx : Bytes) (σ : Secret → Bool) (n : Nat) :
+    (SignedOnly c.sRefresh σ → authAs c t n (.tok (createRefreshToken c t0 user cli σ).1) = c.guest) ∧
+    (SignedOnly c.sEmail σ → authAs c t n (.tok (createEmailToken c t0 user cli eml ctx σ)) = c.guest) := by
+  have h := List.all_eq_true.mp effective_configs_separate_kinds ini hini
+  rw [hc] at h
+  simp only [Option.map_some, beq_iff_eq, Option.some.injEq, kindsSeparated, Bool.and_eq_true, bne_iff_ne, ne_eq] at h
+  obtain ⟨⟨⟨⟨h1, h2⟩, _⟩, _⟩, _⟩ := h
+  exact ⟨fun hs => access_rejects_refresh_token c t t0 user cli σ h1 hs n,
+         fun hs => access_rejects_email_token c t t0 user cli eml ctx σ h2 hs n⟩
 
 /-- **the separation of access tokens rests on the secrets only.**  In the configuration that is the source
 configuration with the refresh and e-mail secrets set to the access secret, the refresh token the server
